@@ -25,6 +25,51 @@ C11_TYPES = ("EADeme", "DEDeme", "SHADEDeme", "CMADeme")
 
 
 class C11Monitor(Monitor):
+    def on(self, kind, tree, info):
+        if kind == "cma_ask_without_tell":
+            self.x.violate("C11/not-bred-from-predecessor:CMADeme:asked-twice", "CMA-ES was asked for a new population although the previous one had not been told back: "
+                           "the new generation is drawn from the same distribution again instead of being bred from its predecessor")
+
+    def de_donors(self, d, l, hist):
+        """Plain DE (fixed F, crossover probability 1): every member that is new in generation i+1 is a donor a + F (b - c) of three distinct members of
+        generation i, mirrored into the box - checked by enumeration (small populations only)."""
+        from pyhms.demes.single_pop_eas.common import apply_bounds
+
+        x = self.x
+        F = x.desc.get("de_scaling", 0.8)
+        box = x.w.box
+        for gi in range(1, len(hist)):
+            prev = [np.asarray(i.genome, dtype=float) for i in hist[gi - 1]]
+            cur = [np.asarray(i.genome, dtype=float) for i in hist[gi]]
+            if len(prev) != len(cur) or len(prev) > 10:
+                return
+            pk = {g.tobytes() for g in prev}
+            for j, g in enumerate(cur):
+                if g.tobytes() in pk:
+                    continue
+                idx = list(range(len(prev)))  # (the new population is not index-stable: accepted trials first, then the parents that stay)
+                ok = False
+                for a in idx:
+                    for b in idx:
+                        if b == a:
+                            continue
+                        for c in idx:
+                            if c == a or c == b:
+                                continue
+                            donor = prev[a] + F * (prev[b] - prev[c])
+                            if apply_bounds(donor.reshape(1, -1), box, "reflect")[0].tobytes() == g.tobytes():
+                                ok = True
+                                break
+                        if ok:
+                            break
+                    if ok:
+                        break
+                x.extra_count("C11 DE members derived from their predecessors")
+                if not ok:
+                    x.violate("C11/not-bred-from-predecessor:DEDeme:no-donor-triple", f"DEDeme {d.id} generation {gi}: member {j} is new, but it is not a + F (b - c) (mirrored into the box) of "
+                              f"any three distinct members of generation {gi - 1} (F = {F}, crossover probability 1)")
+                    return
+
     def end(self, tree):
         x, w = self.x, self.x.w
         log = w.log
@@ -47,6 +92,8 @@ class C11Monitor(Monitor):
             prevset = None
             b_prev = -1
             hist = d.history
+            if typ == "DEDeme" and x.desc.get("de_crossover") == 1.0 and x.desc["engines"][l] == "DE" and not x.desc.get("use_cache"):
+                self.de_donors(d, l, hist)
             g_of = gens_cfg[l] if isinstance(gens_cfg, (list, tuple)) else gens_cfg
             if g_of >= 2 and len(hist) >= 3:
                 x.flag("deme with several generations per metaepoch")
@@ -105,6 +152,9 @@ def units(tier, seed):
         for cr, sc in ((1.0, 0.8), (0.0, 0.8), (0.9, 1.0), (1.0, 0.0)):
             descs.append(dict(engines=list(eng), gens=2 + k4 % 2, obj=("sphere_in", "twofunnel")[k4 % 2], Mh=3, seed=s + k4, sprout={"kind": "simple", "L": 2}, maximize=bool(k4 % 2),
                               de_crossover=cr, de_scaling=sc))
+        # tie-rich objectives, longer runs (a donor must come from the population as it is NOW, also when fitness values repeat)
+        for obj in ("plateau", "intpen"):
+            descs.append(dict(engines=list(eng), gens=3, obj=obj, Mh=6, seed=s + k4, sprout={"kind": "simple", "L": 2}, maximize=bool(k4 % 2), de_crossover=1.0, de_scaling=0.8))
     for k5, eng in enumerate([("UEAm",), ("UEA3", "DE"), ("SEA", "UEAi"), ("UEAi", "UEAm", "UEA3")]):
         for gens in (1, 3):
             descs.append(dict(engines=list(eng), gens=gens, obj=("sphere_in", "plateau")[k5 % 2], Mh=3, seed=s + k5, sprout={"kind": ("simple", "nbc")[k5 % 2], "L": 2}, maximize=bool(k5 % 2),
